@@ -20,7 +20,7 @@ ALL = [json.loads(l)["id"] for l in open("/verif/properties.jsonl")]
 
 manifest = {
     "version": 1,
-    "setup_cmd": "cd /verif/harness && CARGO_NET_OFFLINE=true cargo build --release --offline --bins",
+    "setup_cmd": "cd /verif/harness && CARGO_NET_OFFLINE=true cargo build --release --offline --bins && (CARGO_NET_OFFLINE=true cargo +nightly fuzz build -s none || echo 'fuzz targets not built: the coverage-guided stage of C25/C26/C27/C31 thorough will be skipped')",
     "hooks": {
         "guard": "cargo feature `verif` of the ord crate and of the mockcore crate (both off by default)",
         "enable": "the harness depends on ord by path with features = [\"verif\"], and on mockcore likewise (harness/Cargo.toml); every ./check rebuilds it from /repo's working tree",
@@ -34,6 +34,12 @@ manifest = {
             "path": "harness",
             "serves_properties": sorted(CLAIMED),
             "kind_free_text": "Rust harness: proptest 1.11 TestRunner per worker thread (seeded from VERIF_SEED), shrinking, JSON replay files, reference models and audits; links ord, ordinals and mockcore by path",
+        },
+        {
+            "name": "ordverif-fuzz",
+            "path": "harness/fuzz",
+            "serves_properties": ["C25", "C26", "C27", "C31"],
+            "kind_free_text": "cargo-fuzz 0.13 / libFuzzer targets (runestone, varint, witness, text) whose body is the property's own oracle from the harness library; first stage of the thorough tier of these properties, failing inputs are converted to harness replay files and re-executed there before being reported",
         }
     ],
     "checks": [],
